@@ -81,6 +81,24 @@ fn rg_json(t: &mut Tape) -> Vec<u8> {
 }
 
 fn gen_scenario(t: &mut Tape) -> Scenario {
+    let mut sc = gen_scenario0(t);
+    // option *values* and file names that look like a command delta could launch (`rg`, `git ... diff`):
+    // delta is still only a pager here, so its caller is found by the background thread as ever
+    let mut f = t.fork(11);
+    if sc.launched.is_empty() && f.chance(1, 3) {
+        let extra: &[&str] = *f.pick(&[
+            &["--default-language", "rg"][..],
+            &["--features", "rg"],
+            &["--file-modified-label", "git", "--file-added-label", "diff"],
+            &["--file-renamed-label", "git", "--right-arrow", "grep"],
+            &["--file-copied-label", "git", "--hunk-label", "blame"],
+        ]);
+        sc.opts.extend(extra.iter().map(|s| s.to_string()));
+    }
+    sc
+}
+
+fn gen_scenario0(t: &mut Tape) -> Scenario {
     let other_parents: [&[&str]; 5] = [&["git", "show"], &["git", "blame", "zz.py"], &["rg", "bar"], &["git", "verif-neutral"], &["git", "log", "-p"]];
     match t.weighted(&[2, 2, 2, 2, 2, 4, 3, 3, 3, 3]) {
         0 => {
